@@ -21,10 +21,18 @@ type refT struct {
 	hist map[uint64][]string // signatures written since the last sync point (incl. "" for a delete)
 	vol  bool
 	open bool
+	byts map[string][]byte // every value ever written, by signature (to adopt a recovered state after a crash)
+	// dur / hist as they were when the last request had been issued but not yet completed (a crash inside that request
+	// undoes its completion: `crashat`)
+	savedDur  map[uint64]string
+	savedHist map[uint64][]string
 }
 
+func (f *refT) save()    { f.savedDur, f.savedHist = f.dur, f.hist }
+func (f *refT) restore() { f.dur, f.hist = f.savedDur, f.savedHist }
+
 func newRef() *refT {
-	return &refT{m: map[uint64][]byte{}, nb: map[uint64]int{}, dur: map[uint64]string{}, hist: map[uint64][]string{}}
+	return &refT{m: map[uint64][]byte{}, nb: map[uint64]int{}, dur: map[uint64]string{}, hist: map[uint64][]string{}, byts: map[string][]byte{}}
 }
 
 func sig(v []byte) string { return fmt.Sprintf("%d.%d", len(v), fnv(v)) }
@@ -55,6 +63,7 @@ func (f *refT) before(t []string) {
 			f.nb[k] = fl & 1
 		}
 		f.hist[k] = append(f.hist[k], sig(v))
+		f.byts[sig(v)] = v
 	case "del":
 		k := pkey(t[1])
 		delete(f.m, k)
@@ -244,6 +253,27 @@ func (f *refT) durable(rec string) string {
 			return fmt.Sprintf("key %d is %s after recovery; last synced %s, written since %v", k, name(s), name(f.dur[k]), f.hist[k])
 		}
 	}
+	return ""
+}
+
+// adopt: the process died and the store was reopened with content rec ("ok:k=sig,…", already checked by durable):
+// the history continues from there — that content is the map, and it is durable.
+func (f *refT) adopt(rec string) string {
+	got, ok := parseKV(strings.TrimPrefix(rec, "ok:"))
+	if !ok {
+		return "unparsable recovery " + short(rec)
+	}
+	f.m = map[uint64][]byte{}
+	f.nb = map[uint64]int{}
+	for k, s := range got {
+		v, known := f.byts[s]
+		if !known {
+			return fmt.Sprintf("key %d holds %s after recovery, a value that was never written", k, s)
+		}
+		f.m[k] = v
+		f.nb[k] = 2
+	}
+	f.syncPoint()
 	return ""
 }
 
